@@ -56,6 +56,27 @@ Fixpoint once_ok (across_restarts : bool) (signed : list item) (t : list obs) : 
 Definition c02_one_signature_per_lifetime (t : list obs) : bool := once_ok false [] t.
 Definition c02_one_signature_ever (t : list obs) : bool := once_ok true [] t.
 
+(** C02: what is RELEASED (emitted towards the mirror / network): across restarts on the same stores at
+    most one prevote and one precommit per height/round, and proposals of one height/round all for the
+    same block data (a recorded proposal may be re-sent at start-up) *)
+Fixpoint emit_once_ok (sent : list item) (t : list obs) : bool :=
+  match t with
+  | [] => true
+  | (ev, its) :: rest =>
+      let step := fold_left (fun (acc : bool * list item) it =>
+                    let tg := hd0 it in
+                    if (tg =? 12) || (tg =? 13) then
+                      let key := [tg; nthN it 1; nthN it 2] in
+                      (fst acc && negb (existsb (fun k => leqb (firstn 3 k) key) (snd acc)), (key ++ [nthN it 3]) :: snd acc)
+                    else if (tg =? 14) && negb (nthN it 3 =? 254) then
+                      let key := [tg; nthN it 1; nthN it 2] in
+                      (fst acc && negb (existsb (fun k => leqb (firstn 3 k) key && negb (nthN k 3 =? nthN it 3)) (snd acc)),
+                       (key ++ [nthN it 3]) :: snd acc)
+                    else acc) its (true, sent) in
+      fst step && emit_once_ok (snd step) rest
+  end.
+Definition c02_one_emission_ever (t : list obs) : bool := emit_once_ok [] t.
+
 (** C08: votes are signed / saved / emitted only in the event that delivers the strategy's answer, for
     the answered hash; proposals only for the strategy's proposal *)
 Definition c08_targets (t : list obs) : bool :=
@@ -67,6 +88,25 @@ Definition c08_targets (t : list obs) : bool :=
         (hd0 ev =? 9) && (nthN ev 1 =? 0) && (nthN ev 2 =? nthN it 3)
       else if tg =? 8 then (hd0 ev =? 10) && (nthN ev 1 =? nthN it 3)
       else true) (snd o)) t.
+
+(** C08: a view of another height/round than the one the machine announced last (and carrying no
+    jump-ahead) changes nothing: the event has no output at all (22 = the harness could not even deliver it) *)
+Fixpoint stale_inert (cur : option (N * N)) (t : list obs) : bool :=
+  match t with
+  | [] => true
+  | (ev, its) :: rest =>
+      let cur0 := if hd0 ev =? 1 then None else cur in
+      let ja := firstn 2 (rev ev) in
+      let ok := match cur0 with
+                | Some (h, r) =>
+                    if (hd0 ev =? 5) && negb ((nthN ev 1 =? h) && (nthN ev 2 =? r)) && leqb ja [0; 0]
+                    then forallb (fun it => hd0 it =? 22) its else true
+                | None => true
+                end in
+      let cur1 := fold_left (fun a it => if hd0 it =? 1 then Some (nthN it 1, nthN it 2) else a) its cur0 in
+      ok && stale_inert cur1 rest
+  end.
+Definition c08_stale_view_inert (t : list obs) : bool := stale_inert None t.
 
 (** C08: signatures, saves and timers refer to the round announced by the latest round entrance, and the
     announced rounds strictly increase within one process lifetime *)
